@@ -247,6 +247,57 @@ def run(P, rep, tier):
                           'for every later section and every other reader' % (nm, txt, fn), path=[fn])
     else:
         rep.ok(r6, 'reader paths', {'paths': total_paths})
+    # ---- R7 the object-model entry points parse from the caller's first byte ---------------------------------
+    r7 = rep.rule('C10-R7', 'DiffX.from_bytes / from_stream hand the caller\'s bytes / stream to the parser unchanged (nothing in front of '
+                  'the main header is skipped)', reference=2)
+    from sa.interp import Interp
+    from sa.values import AStream
+    dcls = P.cls('pydiffx.dom.objects', 'DiffX')
+    rcls = P.cls('pydiffx.dom.reader', 'DiffXDOMReader')
+    pm = rcls.find_method('parse')
+    fb, fs_ = dcls.find_method('from_bytes'), dcls.find_method('from_stream')
+    if pm is None or fb is None or fs_ is None:
+        raise AnalysisError('from_bytes / from_stream / DiffXDOMReader.parse not found (anchor vanished)')
+    for entry, mk in ((fb, lambda: Unk('data', kinds=['bytes'], taint=['INPUT'])), (fs_, lambda: AStream('caller-stream'))):
+        I7 = Interp(P)
+        got = []
+
+        def stub(I_, fi_, args, kwargs, node, got=got):
+            got.append(args[1] if len(args) > 1 else kwargs.get(fi_.params()[1]))
+            return Unk('tree')
+        I7.stubs[pm.qualname] = stub
+        st7 = {}
+
+        def thunk(entry=entry, mk=mk):
+            del got[:]
+            st7['arg'] = mk()
+            I7.frames = []
+            return I7.call_function(entry, [dcls, st7['arg']], {}, None, self_cls=dcls)
+        n7 = 0
+        bad7 = None
+        for path in I7.explore(thunk):
+            n7 += 1
+            if n7 > 200:
+                raise AnalysisError('too many paths in %s' % entry.short)
+            if path.outcome != 'return':
+                continue
+            a_ = st7['arg']
+            for s_ in got:
+                same = s_ is a_ or (isinstance(s_, AStream) and getattr(s_, 'init', None) is a_)
+                if not same:
+                    bad7 = 'the parser receives %s instead of the caller\'s %s' % (
+                        'a stream over %s' % getattr(getattr(s_, 'init', None), 'name', getattr(s_, 'init', '?')) if isinstance(s_, AStream) else s_,
+                        'bytes' if entry is fb else 'stream')
+            for ev in path.events:
+                if ev.kind in ('stream-seek', 'stream-read') and ev.data.get('stream') in ([a_] + got):
+                    bad7 = 'the stream is %s before it reaches the parser' % ev.kind.split('-')[1]
+            if not got:
+                bad7 = 'the parser is not called'
+        if bad7:
+            rep.violation(r7, 'entry-skips-input:%s' % entry.name, entry.loc(), '%s: %s - sections in front of the main header would be '
+                          'accepted / skipped' % (entry.short, bad7), path=[entry.short])
+        else:
+            rep.ok(r7, entry.short, {'paths': n7})
     if not upstream_bad:
         rep.floor(r2, 81)
         rep.floor(r3, 8)
